@@ -128,7 +128,7 @@ func vrtDerived(in []vrtIn, seed int64, nrand int) []vrtIn {
 			out = append(out, vrtIn{kind: "TOR", cls: "random", p: p, g: g, r: r})
 		} else {
 			e := rng.Int63n((int64(1) << uint(1+rng.Intn(50))) + 1)
-			if i%4 == 1 { // exactly on / around a boundary
+			if i%8 != 7 { // mostly exactly on a boundary, sometimes just before it
 				e = e / int64(p) * int64(p)
 				if i%8 == 1 && e > 0 {
 					e--
